@@ -15,7 +15,7 @@ import (
 // `fn.*` ops for the functions /verif/gen regenerates into Generated/Funcs{Tak,Sym,AI,FPA}.lean: each op runs
 // the real function; the Lean side evaluates the regenerated definition (Driver/OpsFnGen.lean).  Generators:
 // FNTAK (pieces: C01, C02), FNOVER (flood, flat count, game end: C02), FNMOVE (Slides.Len, Move methods: C05, C14, C20),
-// FNSYM (C14, C15), FNAI (C05), FNFPA (C20), FNEVAL (terminal scores: C18).
+// FNSYM (C14, C15), FNAI (C05), FNFPA (C20), FNEVAL (terminal scores: C18), FNHASH (Position.Hash: C08).
 
 func i8(s string) int8 { return int8(atoi(s)) }
 
@@ -68,6 +68,9 @@ func init() {
 		cw, cb := p.VerifCountFlats()
 		over, w := p.GameOver()
 		return fmt.Sprintf("%d %d %d %d %d %d", p.ToMove(), cw, cb, p.VerifFlatsWinner(), b2i(over), w)
+	}
+	opTable["fn.hash"] = func(s *Session, a []string) string {
+		return strconv.FormatUint(decPos(a[0]).Hash(), 10)
 	}
 	opTable["fn.sym"] = func(s *Session, a []string) string {
 		x, y := symmetry.VerifSymmetries(atoi(a[0]))[atoi(a[1])](i8(a[2]), i8(a[3]))
@@ -385,7 +388,19 @@ func genFNEVAL(c *Ctx) {
 	}
 }
 
+func genFNHASH(c *Ctx) {
+	n := c.Scale(3000, 300000)
+	for k := 0; k < n; k++ {
+		p := randomPosition(c.R)
+		if p == nil {
+			continue
+		}
+		c.Emit("fn.hash " + encPos(p))
+	}
+}
+
 func init() {
+	genTable["FNHASH"] = genFNHASH
 	genTable["FNEVAL"] = genFNEVAL
 	genTable["FNTAK"] = genFNTAK
 	genTable["FNMOVE"] = genFNMOVE
